@@ -3181,6 +3181,10 @@ def stale_memo(sm, new_locs):
     import re
     out = []
     loc_attrs = {l.replace("[]", "") for l in new_locs}
+    _PURE = {"tuple", "len", "hash", "bool", "int", "str", "bytes", "isinstance", "sorted", "min", "max", "abs", "sum", "any", "all", "list", "dict", "set", "frozenset", "repr", "id", "type",
+             "truthy", "bit", "getattr", "ord", "chr", "range", "enumerate", "zip", "map", "filter", "divmod", "round", "bytearray", "memoryview", "iter", "next", "reversed", "hasattr"}
+    # a callable that was handed in or bound locally (a bound method, a closure) may read the object's state
+    calls_param = lambda t_: any(nm_ not in _PURE for nm_ in re.findall(r"(?<![\w.])([A-Za-z_]\w*)\(", t_))
 
     def state_reads(text, exclude):
         reads = set()
@@ -3288,7 +3292,7 @@ def stale_memo(sm, new_locs):
                        (entails(hit, ("not", ("op", a))) and miss not in (True, False) and entails(miss, ("op", a)))]
             if not telling:
                 telling = [a for a in atoms if mentions(a)]
-            if telling and not any(state_reads(hide(a), {loc}) for a in telling) and not state_reads(hide(it.head[7:]), {loc}):
+            if telling and not any(state_reads(hide(a), {loc}) or calls_param(a) for a in telling) and not state_reads(hide(it.head[7:]), {loc}):
                 # ... unless every other method of the class that changes the object's state refers to the memo (resets it): then
                 # whether it can go stale is a question about those methods, and this rule gives no verdict
                 lacking = MEMO_INVALIDATION(attr) if MEMO_INVALIDATION is not None else None
@@ -3338,7 +3342,7 @@ def stale_memo(sm, new_locs):
             for it in sm.items:
                 if it.cond not in (True, False):
                     a_atoms |= {a for a in gi.f_opaques(it.cond) if isinstance(a, str) and mentions(a)}
-            if (lacking is None or lacking) and a_atoms and not any(state_reads(hide(a), {loc}) for a in a_atoms):
+            if (lacking is None or lacking) and a_atoms and not any(state_reads(hide(a), {loc}) or calls_param(a) for a in a_atoms):
                 who = ("%s change%s the object's state without referring to it" % (", ".join(lacking[:4]), "s" if len(lacking) == 1 else "")) if lacking else "nothing in the class resets it when that state changes"
                 out.append("whether %s does its state-dependent work (%s) is decided by tests that read only the memo (`%s`), and %s: the remembered result is used as if nothing had changed"
                            % (getattr(fn_, "name", "the function"), ", ".join(sorted(computed_from))[:70], sorted(a_atoms)[0][:60], who))
